@@ -955,6 +955,196 @@ def agreement_grid(ctx, volume=1):
 
 
 # ---------------------------------------------------------------------------------------
+# (3b) mixed (Python scalar, array) calls across ARRAY DTYPES
+# ---------------------------------------------------------------------------------------
+
+DTYPES = [np.float64, np.float32, np.int64, np.int32, np.bool_, np.uint8]
+DT_BIN = ["add", "sub", "mul", "truediv", "floordiv", "mod", "pow", "max", "min", "and_", "or_", "xor", "eq", "ne",
+          "lt", "le", "gt", "ge", "logaddexp", "sample", "safesub", "safediv", "lshift", "rshift"]
+DT_TRANSC = {"logaddexp", "sample", "pow", "safediv", "truediv"}
+DT_SHAPES = [(), (3,), (2, 3)]
+F32MAX = float(np.finfo(np.float32).max)
+
+
+def dt_elements(rng, dt, n):
+    if dt is np.bool_:
+        pool = [True, False]
+    elif dt is np.uint8:
+        pool = [0, 1, 2, 3, 7, 200, 255]
+    elif dt in (np.int64, np.int32):
+        pool = [0, 1, -1, 2, 3, -4, 7, -64, 1000]
+    else:
+        pool = [0.0, 1.0, -1.0, 0.5, -2.5, 3.0, 0.375, -0.0, 4.0, 96.0]      # exact in float32
+    return [rng.choice(pool) for _ in range(n)]
+
+
+def dt_scalars(rng):
+    fixed = [0.5, -2.5, 0.375, 1.5, -1, 3, 0, 1, 7, True, False, INF, -INF, 2 ** 40, -2 ** 40, 2 ** 31, 1e300, float("nan")]
+    return fixed + [rng.choice([0.25, -0.75, 2.5, 10.5, -3, 12, 255, 256, -129])]
+
+
+def dt_domain(name, s, e, order, dt, want):
+    """(in-domain?, reason) for one (scalar, element) cell; `want` is the Python-scalar result"""
+    if isinstance(s, float) and s != s:
+        return False, "nan-scalar"
+    a, b = (s, e) if order == 0 else (e, s)
+    if is_exc(want) or isinstance(want, complex):
+        return False, "scalar-declines"
+    if isinstance(want, float) and want != want:
+        return False, "scalar-nan"
+    if name == "pow" and isinstance(a, (int, float)) and a < 0 and isinstance(b, float) and not b.is_integer():
+        return False, "pow-neg-base"
+    if dt is np.float32 and isinstance(s, (int, float)) and not isinstance(s, bool) and math.isfinite(s) \
+            and (abs(s) > F32MAX or float(np.float32(s)) != float(s)):
+        return False, "scalar-not-representable-in-float32(numpy weak promotion)"
+    if dt is np.bool_ and isinstance(s, bool) and name in ("add", "sub", "mul", "truediv", "floordiv", "mod", "pow",
+                                                             "safesub", "safediv", "lshift", "rshift"):
+        return False, "bool-bool-arithmetic(numpy boolean algebra)"
+    if dt is np.uint8 and name in ("sub", "safesub"):
+        return False, "unsigned-subtraction(wraparound)"
+    if name in ("safediv",) and dt not in (np.float64, np.float32) and order == 0:
+        return False, "pending:safediv-integer-divisor"
+    if name in ("safesub", "safediv", "reciprocal") and isinstance(b, (int, float)) and kf_region(name, float(a), float(b)):
+        return False, "kf-region"
+    if name == "safediv" and isinstance(a, float) and isinstance(b, float) and math.isinf(a) and math.isinf(b):
+        return False, "inf/inf"
+    return True, ""
+
+
+def dt_guard(name, a, b):
+    """keep the Python-scalar oracle cheap (no astronomically large ints)"""
+    if name == "pow":
+        if isinstance(a, float) or isinstance(b, float):
+            return abs(b) <= 16 or (isinstance(b, float) and math.isinf(b))
+        return abs(a) <= 64 and 0 <= b <= 16
+    if name in ("lshift", "rshift"):
+        return isinstance(a, int) and isinstance(b, int) and 0 <= b < 40 and abs(a) < 2 ** 20
+    return True
+
+
+def dt_python(name, s, elems, dt, shape, order):
+    dtn = {np.float64: "np.float64", np.float32: "np.float32", np.int64: "np.int64", np.int32: "np.int32",
+           np.bool_: "np.bool_", np.uint8: "np.uint8"}[dt]
+    arr = f"np.array([{', '.join(hx(e) for e in elems)}], dtype={dtn}).reshape({tuple(shape)!r})"
+    tol = "1e-6" if (dt is np.float32 or name in DT_TRANSC) else "0.0"
+    callsrc = f"ops.{name}(s, arr)" if order == 0 else f"ops.{name}(arr, s)"
+    ref = f"ops.{name}(s, e)" if order == 0 else f"ops.{name}(e, s)"
+    return PRELUDE + (f"s = {hx(s)}\narr = {arr}\ngot = call(lambda: np.asarray({callsrc}))\nprint(got)\nbad = []\n"
+                      f"if not isinstance(got, tuple):\n"
+                      f"    for e, g in zip(arr.ravel().tolist(), got.ravel().tolist()):\n"
+                      f"        w = call(lambda: {ref})\n"
+                      f"        if isinstance(w, tuple) or isinstance(w, complex) or w != w: continue\n"
+                      f"        if not (float(g) == float(w) or ({tol} and abs(float(g) - float(w)) <= {tol} * max(1.0, abs(float(w))))): bad.append((e, g, w))\n"
+                      f"print('mismatches (element, got, python-scalar):', bad)\nFAILS = bool(bad)\n")
+
+
+def dtype_grid(ctx, volume=1):
+    """Every binary op, (Python scalar, array) in both orders, array dtypes float64/float32/int64/int32/bool/uint8,
+    shapes (), (3,), (2,3).  Oracle: the Python-scalar default applied to every element; values compared in
+    float64 (result dtype counted, not gated).  Plus the UNITS neutrality law on every dtype, and the Lean
+    dtype-indexed model of the mixed max/min registrations (`C15 mixed …`)."""
+    rng = ctx.rng
+    reqs, meta = [], []
+    for name in DT_BIN:
+        op = get_op(name)
+        for dt in DTYPES:
+            for shape in DT_SHAPES:
+                n = int(np.prod(shape)) if shape else 1
+                for s in dt_scalars(rng):
+                    for order in (0, 1):
+                        elems = dt_elements(rng, dt, n)
+                        if not all(dt_guard(name, *((s, e) if order == 0 else (e, s))) for e in elems):
+                            ctx.count("dtype:skipped-guard")
+                            continue
+                        arr = np.array(elems, dtype=dt).reshape(shape)
+                        got = call(op, s, arr) if order == 0 else call(op, arr, s)
+                        if is_exc(got):
+                            ctx.count(f"dtype:array-declines:{name}:{dt.__name__}")
+                            continue
+                        got = np.asarray(got)
+                        if got.dtype == np.float16:
+                            ctx.count("dtype:outside-domain:float16-promotion-of-small-int-dtype")
+                            continue
+                        if got.shape != tuple(shape):
+                            ctx.fail("input", f"C15.dtype:{name}:shape", witness=dict(op=name, dtype=dt.__name__, shape=list(shape),
+                                     scalar=jv(s), order=order), expected=list(shape), got=list(got.shape),
+                                     python=dt_python(name, s, arr.ravel().tolist(), dt, shape, order))
+                            continue
+                        ctx.count(f"dtype:result-dtype:{dt.__name__}->{got.dtype}")
+                        tol = 1e-6 if (dt is np.float32 or name in DT_TRANSC) else 0.0
+                        gated = 0
+                        for e, g in zip(arr.ravel().tolist(), got.ravel().tolist()):
+                            want = call(op, s, e) if order == 0 else call(op, e, s)
+                            ok, why = dt_domain(name, s, e, order, dt, want)
+                            if ok and got.dtype.kind in "iu" and not isinstance(want, bool):
+                                info = np.iinfo(got.dtype)
+                                if not (info.min <= want <= info.max):
+                                    ok, why = False, "integer-result-overflow(wraparound)"
+                            if not ok:
+                                ctx.count(f"dtype:outside-domain:{why}")
+                                continue
+                            gated += 1
+                            ctx.count("dtype:cells")
+                            w, gv = float(want), float(g)
+                            if not (gv == w or (tol and abs(gv - w) <= tol * max(1.0, abs(w)))):
+                                ctx.fail("input", f"C15.dtype:{name}:{dt.__name__}",
+                                         witness=dict(op=name, dtype=dt.__name__, shape=list(shape), scalar=jv(s), element=jv(e),
+                                                      order="scalar,array" if order == 0 else "array,scalar",
+                                                      result_dtype=str(got.dtype)),
+                                         expected=jv(want), got=jv(g),
+                                         python=dt_python(name, s, arr.ravel().tolist(), dt, shape, order))
+                                break
+                            if name in ("max", "min") and dt in (np.float64, np.int64, np.bool_) and len(reqs) < 4000 \
+                                    and not (isinstance(s, float) and s != s):
+                                dtn = {np.float64: "f64", np.int64: "i64", np.bool_: "bool"}[dt]
+                                ea = xr_atom(e) if dt is np.float64 else (("true" if e else "false") if dt is np.bool_ else str(int(e)))
+                                reqs.append(f"C15 mixed {name} {dtn} {xr_atom(s)} {ea}")
+                                meta.append((name, dtn, s, e, gv))
+                        if gated:
+                            ctx.case(sample=dict(op=name, dtype=dt.__name__, scalar=jv(s), shape=list(shape)) if rng.random() < 0.001 else None,
+                                     nontrivial_key=("dtype", name, dt.__name__, shape, repr(s), order, arr.tobytes()))
+    # UNITS neutrality on every dtype
+    for uop, u in ops.UNITS.items():
+        nm = opname(uop)
+        for dt in DTYPES:
+            if nm in BOOL_OPS and dt is not np.bool_ and nm == "and_":
+                continue           # True is neutral for `and` on booleans only (bitwise & on ints is not the carrier)
+            for shape in DT_SHAPES:
+                n = int(np.prod(shape)) if shape else 1
+                arr = np.array(dt_elements(rng, dt, n), dtype=dt).reshape(shape)
+                for order in (0, 1):
+                    got = call(uop, u, arr) if order == 0 else call(uop, arr, u)
+                    if is_exc(got):
+                        ctx.count(f"dtype:units:declines:{nm}:{dt.__name__}")
+                        continue
+                    got = np.asarray(got)
+                    if got.dtype == np.float16:
+                        ctx.count("dtype:outside-domain:float16-promotion-of-small-int-dtype")
+                        continue
+                    ctx.count("dtype:units:checks")
+                    okv = got.shape == arr.shape and all(float(g) == float(e) for g, e in zip(got.ravel().tolist(), arr.ravel().tolist()))
+                    if not okv:
+                        ctx.fail("input", f"C15.dtype-units:{nm}:{dt.__name__}",
+                                 witness=dict(op=nm, unit=jv(u), dtype=dt.__name__, array=jv(arr.astype(float) if dt is not np.bool_ else arr),
+                                              order="unit,array" if order == 0 else "array,unit"),
+                                 expected="the array itself (the declared unit is neutral)", got=jv(got.astype(float)),
+                                 python=dt_python(nm, u, arr.ravel().tolist(), dt, shape, order))
+    if reqs:
+        ans = ctx.driver.ask(reqs) if ctx.driver.available() else []
+        for (name, dtn, s_, e, gv), an, rq in zip(meta, ans, reqs):
+            if not an.startswith("ok "):
+                ctx.infra_errors.append(f"driver: {an} for {rq}")
+                return
+            tok = an[3:]
+            from fractions import Fraction
+            want = float("nan") if tok == "nan" else (INF if tok == "inf" else (-INF if tok == "-inf" else float(Fraction(tok))))
+            ctx.count("dtype:lean-mixed-model-checks")
+            if not same(gv, want):
+                ctx.fail("correspondence", f"C15.dtype-model:{name}:{dtn}", witness=dict(request=rq, model=an, impl=jv(gv), scalar=jv(s_), element=jv(e)),
+                         expected=tok, got=jv(gv))
+
+
+# ---------------------------------------------------------------------------------------
 # (4) special values of the stabilised ops: Python oracle + abstract class / provenance
 # ---------------------------------------------------------------------------------------
 
@@ -1690,6 +1880,17 @@ def observations(ctx):
 # correspond / search
 # ---------------------------------------------------------------------------------------
 
+def dtype_grid_nodriver(ctx):
+    class _NoDriver:
+        def available(self):
+            return False
+    real, ctx.driver = ctx.driver, _NoDriver()
+    try:
+        dtype_grid(ctx)
+    finally:
+        ctx.driver = real
+
+
 def correspond(ctx):
     ctx.rule = (
         "law grid: every live entry of UNITS / DISTRIBUTIVE_OPS / *_INVERSES / PRODUCT_TO_POWER evaluated on the "
@@ -1711,6 +1912,7 @@ def correspond(ctx):
     exact_eval_tie(ctx)
     bool_semiring(ctx)
     agreement_grid(ctx)
+    dtype_grid(ctx)
     special_grid(ctx)
     primitive_grid(ctx)
     magnitude_grid(ctx)
@@ -1751,6 +1953,7 @@ def search(ctx, broken):
     bool_semiring(ctx)
     for _ in range(3):
         agreement_grid(ctx, volume=2)
+        dtype_grid_nodriver(ctx)
         special_grid(ctx, use_driver=False, volume=3)
         logsumexp_stream(ctx, 1500, use_driver=False)
         einsum_stream(ctx, 1500, use_driver=False)
